@@ -157,6 +157,9 @@ func vClusterNode(dir string, nid uint64, ents []*entry, term, votedFor, commit 
 				fsm.Update(e.data)
 			}
 			r.fsm.index, r.fsm.term = e.index, e.term
+			if e.typ == entryConfig {
+				r.fsm.config = cfg
+			}
 		}
 	}
 	r.resolver.update(cfg)
